@@ -709,52 +709,119 @@ class Engine:
     def exec_for_comprehension(self, node, it, st, ordinal):
         bags = self.bags_of(it, st)
         assigned = _assigned_names(node.body)
-        heap_before = dict(st.heap)
         env_before = dict(st.env)
-        outs = []
-        nbags0 = len(st.bags)
-        new_bags = []
-        for b in bags:
-            mark = serial_mark()
-            news, cond, elem = b.instantiate("it")
-            s = st.fork()
-            s.binders = st.binders + news
-            s.assume(cond)
+        where = "loop %d of %s (line %d)" % (ordinal, self.cur_target, node.lineno)
+
+        def body(s, elem):
             self.assign(node.target, elem, s)
             res = self.exec_stmts(node.body, s)
             for (s2, ctrl) in res:
+                if ctrl is not None and ctrl[0] in ("return", "break"):
+                    raise Unsupported("return/break inside %s needs a loop invariant" % where)
+            return res
+
+        outs = self.iterate_stateless(st, bags, body, where, collect="yields")
+        # loop-carried locals are not allowed in comprehension mode
+        for name in assigned:
+            if name in env_before:
+                raise Unsupported("%s assigns outer local %r: needs a loop invariant" % (where, name))
+            st.env[name] = SV("poison", x="loop-local %s" % name)
+        for name in _target_names(node.target):
+            st.env[name] = SV("poison", x="loop variable %s" % name)
+        return [(st, None)] + outs
+
+    # -- stateless iteration (comprehension rule), optionally modulo the index region R -------------
+    def iterate_stateless(self, st, bags, body, where, collect="yields"):
+        """Run ``body`` once per bag for an arbitrary element.  The body must not change the heap,
+        except for the index region R (schema.REGION_KEYS) when the contract under verification provides a
+        region invariant: then R is havocked under the invariant before the arbitrary iteration, the
+        invariant is re-proved after it, and yielded conditions must not mention R.
+        Returns exceptional outcomes; yields are appended to st.bags (collect='yields') or, for
+        collect='values', the list of (Bag) for the body's return values is returned instead."""
+        from .schema import REGION_KEYS
+        region = None
+        for attempt in (False, True):
+            if attempt and region is None:
+                break
+            try:
+                return self._iterate(st, bags, body, where, collect, use_region=attempt)
+            except _RegionWrite as e:
+                inv = getattr(self.cur_contract, "region_invariant", None)
+                if attempt or inv is None:
+                    raise Unsupported("%s writes index-region field %s but the contract has no region invariant"
+                                      % (where, e.args[0]))
+                region = inv
+        raise Unsupported("unreachable")
+
+    def _iterate(self, st, bags, body, where, collect, use_region):
+        from .schema import REGION_KEYS
+        from .contracts import Ctx
+        rkeys = set(REGION_KEYS)
+        outs = []
+        new_bags = []
+        nbags0 = len(st.bags)
+        base = st
+        if use_region:
+            inv = self.cur_contract.region_invariant
+            st.oblige("region.init(%s)" % where, inv(Ctx(self, dict(st.heap))))
+            base = st.fork()
+            for key in rkeys:
+                old = self.field_array(base, key)
+                base.heap[key] = fresh("HR_" + _san(key), old.sort())
+            base.define(inv(Ctx(self, dict(base.heap))))
+        heap_before = dict(base.heap)
+        for b in bags:
+            mark = serial_mark()
+            news, cond, elem = b.instantiate("it")
+            s = base.fork()
+            s.binders = st.binders + news
+            s.assume(cond)
+            res = body(s, elem)
+            for item in res:
+                if collect == "values":
+                    s2, ctrl, val = item
+                else:
+                    (s2, ctrl), val = item, None
                 if ctrl is not None and ctrl[0] == "raise":
                     outs.append((s2, ctrl))
                     continue
-                if ctrl is not None and ctrl[0] in ("return", "break"):
-                    raise Unsupported("return/break inside loop %d of %s needs a loop invariant (line %d)"
-                                      % (ordinal, self.cur_target, node.lineno))
-                # stateless check
+                wrote_region = False
                 for key, arr in s2.heap.items():
-                    if key in heap_before and not z3.eq(arr, heap_before[key]):
-                        raise Unsupported("loop %d of %s writes heap field %s: needs a loop invariant (line %d)"
-                                          % (ordinal, self.cur_target, key, node.lineno))
-                    if key not in heap_before and not z3.is_const(arr):
-                        raise Unsupported("loop %d of %s writes heap field %s: needs a loop invariant"
-                                          % (ordinal, self.cur_target, key))
-                # collect yields produced in this iteration
-                for bag in s2.bags[nbags0:]:
+                    before = heap_before.get(key)
+                    changed = (before is not None and not z3.eq(arr, before)) or \
+                              (before is None and not z3.is_const(arr))
+                    if not changed:
+                        continue
+                    if key in rkeys:
+                        if not use_region:
+                            raise _RegionWrite(key)
+                        wrote_region = True
+                    else:
+                        raise Unsupported("%s writes heap field %s: needs a loop invariant" % (where, key))
+                if use_region:
+                    s2.oblige("region.step(%s)" % where, self.cur_contract.region_invariant(Ctx(self, dict(s2.heap))))
+                produced = s2.bags[nbags0:] if collect == "yields" else \
+                    [Bag(list(s2.binders), local_cond(s2, len(st.pc), mark, sv_terms(val)), val)]
+                for bag in produced:
                     aux = [x for x in consts_since([bag.cond] + sv_terms(bag.elem), mark)
                            if not any(x.eq(y) for y in bag.binders)]
-                    new_bags.append(Bag(bag.binders + aux, bag.cond, bag.elem, bag.tag))
-        st.bags.extend(new_bags)
-        # loop-carried locals are not allowed in comprehension mode: names assigned in the body
-        # must not be read after the loop (checked lazily: we poison them)
-        for name in assigned:
-            if name in env_before:
-                # re-assigned variable that existed before: loop-carried state
-                raise Unsupported("loop %d of %s assigns outer local %r: needs a loop invariant (line %d)"
-                                  % (ordinal, self.cur_target, name, node.lineno))
-            st.env[name] = SV("poison", x="loop-local %s" % name)
-        tname = _target_names(node.target)
-        for name in tname:
-            st.env[name] = SV("poison", x="loop variable %s" % name)
-        return [(st, None)] + outs
+                    nb = Bag(bag.binders + aux, bag.cond, bag.elem, bag.tag)
+                    if use_region:
+                        bad = [str(x) for x in consts_since([nb.cond] + sv_terms(nb.elem), 0) if _is_region_array(x, rkeys)]
+                        bad += [n for n in _named_consts([nb.cond] + sv_terms(nb.elem)) if _is_region_name(n, rkeys)]
+                        if bad:
+                            raise Unsupported("%s: yielded condition depends on index-region state %s" % (where, bad[:3]))
+                    new_bags.append(nb)
+        if use_region:
+            for key in rkeys:
+                old = self.field_array(st, key)
+                st.heap[key] = fresh("HR_" + _san(key), old.sort())
+            st.define(self.cur_contract.region_invariant(Ctx(self, dict(st.heap))))
+        if collect == "values":
+            self._last_value_bags = new_bags
+        else:
+            st.bags.extend(new_bags)
+        return outs
 
     def exec_for_invariant(self, node, it, inv, st, ordinal):
         return inv.run(self, node, it, st, ordinal)
@@ -1249,6 +1316,24 @@ class Engine:
     def comprehension(self, gens, elt, st):
         """(elt for x in it if c ...) -> bags.  Evaluated in the *current* state (see DESIGN 2.3:
         generators are consumed where they are returned)."""
+        if len(gens) == 1:
+            g = gens[0]
+            it = self.eval(g.iter, st)
+            bags = self.bags_of(it, st)
+
+            def body(s, elem):
+                self.assign(g.target, elem, s)
+                for cexpr in g.ifs:
+                    c = self.truthy(self.eval(cexpr, s), s)
+                    s.assume(c)
+                v = self.eval(elt, s)
+                return [(s, None, v)]
+            mark_e = len(self.exc_paths)
+            outs = self.iterate_stateless(st, bags, body, "generator expression in %s" % self.cur_target,
+                                          collect="values")
+            for (s2, ctrl) in outs:
+                self.exc_paths.append((s2, ctrl[1]))
+            return SV("gen", x=self._last_value_bags)
         mark0 = serial_mark()
 
         def rec(i, s, binders, conds):
@@ -1337,7 +1422,7 @@ class Engine:
         return self.call_function(m, [obj] + args, kwargs, st, self_cls=obj.cls)
 
     def call_function(self, fi, args, kwargs, st, closure=None, self_cls=None, force_inline=False):
-        c = None if (force_inline or self.reg.prefers_inline(fi)) else self.reg.find_for_call(fi, self_cls, args)
+        c = None if (force_inline or self.reg.prefers_inline(fi)) else self.reg.find_for_call(fi, self_cls, args, kwargs)
         if c is not None and c is not self.cur_contract_for_body(fi):
             return self.call_by_contract(c, args, kwargs, st, fi)
         if c is not None and c is self.cur_contract_for_body(fi) and self.inline_depth > 0:
@@ -1521,6 +1606,48 @@ class Engine:
         st.facts.append(Card(s2) >= 0)
         st.facts.append((Card(s) == 0) == (s == EmptySet))
         st.facts.append((Card(s2) == 0) == (s2 == EmptySet))
+
+
+class _RegionWrite(Exception):
+    pass
+
+
+def _san(key):
+    return key.replace("#", "_").replace("$", "S").replace(".", "_")
+
+
+def _is_region_name(name, rkeys):
+    base = name.split("!")[0]
+    for pre in ("H0_", "HR_", "HL_", "H_"):
+        if base.startswith(pre):
+            base = base[len(pre):]
+            break
+    else:
+        return False
+    return _san(base) in {_san(k) for k in rkeys}
+
+
+def _is_region_array(x, rkeys):
+    return _is_region_name(x.decl().name(), rkeys)
+
+
+def _named_consts(exprs):
+    seen, out = set(), set()
+    stack = [e for e in exprs if e is not None]
+    while stack:
+        e = stack.pop()
+        i = e.get_id()
+        if i in seen:
+            continue
+        seen.add(i)
+        if z3.is_quantifier(e):
+            stack.append(e.body())
+        elif z3.is_app(e):
+            if e.num_args() == 0 and e.decl().kind() == z3.Z3_OP_UNINTERPRETED:
+                out.add(e.decl().name())
+            else:
+                stack.extend(e.children())
+    return out
 
 
 def local_cond(st, mark, serial, extra_terms=()):
